@@ -328,6 +328,10 @@ func (p *parser) ifStatement() ast.Statement {
 		p.setScope(thenScope)
 		Then = p.checkedDeclaration() // parse the single (non-block) statement
 		p.exitScope()
+		if Then == nil { // alias declarations and failed function definitions are no statements
+			p.err(ddperror.SYN_UNEXPECTED_TOKEN, p.previous().Range, "Nach 'Wenn ...,' wurde eine Anweisung erwartet")
+			Then = &ast.BadStmt{Tok: *p.previous(), Err: p.lastError}
+		}
 		Then = &ast.BlockStmt{
 			Range:      Then.GetRange(),
 			Colon:      *comma,
@@ -347,6 +351,10 @@ func (p *parser) ifStatement() ast.Statement {
 				p.setScope(elseScope)
 				Else = p.checkedDeclaration()
 				p.exitScope()
+				if Else == nil { // alias declarations and failed function definitions are no statements
+					p.err(ddperror.SYN_UNEXPECTED_TOKEN, p.previous().Range, "Nach 'Sonst' wurde eine Anweisung erwartet")
+					Else = &ast.BadStmt{Tok: *p.previous(), Err: p.lastError}
+				}
 				Else = &ast.BlockStmt{
 					Range:      Else.GetRange(),
 					Colon:      *_else,
